@@ -196,7 +196,7 @@ func TestVerif_BulkNotify(t *testing.T) {
 				}
 				r.Count("notified_commits", 1)
 				r.Count("watch_verdicts", int64(len(chans)))
-				r.Case(vkit.NewHash().Str("bulk").Int(int64(n)).Str(what).Int(int64(si)).Sum(), len(chans) >= 1000)
+				r.Case(vkit.NewHash().Str("bulk").Int(int64(n)).Str(what).Str(fmt.Sprint(rootOnly)).Sum(), len(chans) >= 1000)
 				if early > 0 {
 					r.Violation("watch/closed-before-notify/bulk", si, map[string]any{"message": fmt.Sprintf("%d keys, %s, rootOnly=%v: %d channels closed between Commit and Notify", n, what, rootOnly, early)})
 				}
